@@ -1,6 +1,7 @@
 package main
 
 import (
+	"time"
 	"bytes"
 	"errors"
 	"fmt"
@@ -38,6 +39,41 @@ func (c *chunkReader) Read(p []byte) (int, error) {
 	c.data = c.data[n:]
 	return n, nil
 }
+
+// tempErrReader: a reader that reports a temporary error on every call (a connection whose read deadline has
+// expired does)
+type tempErr struct{}
+
+func (tempErr) Error() string   { return "temporary failure" }
+func (tempErr) Timeout() bool   { return true }
+func (tempErr) Temporary() bool { return true }
+
+type tempErrReader struct{ calls int }
+
+func (t *tempErrReader) Read(p []byte) (int, error) { t.calls++; return 0, tempErr{} }
+
+// readFromReturns: ReadFrom comes back (with an error) from readers that never deliver
+func readFromReturns(o *out) {
+	for _, rd := range []io.Reader{&tempErrReader{}, iotest0{}} {
+		done := make(chan struct{})
+		go func() {
+			m := &stun.Message{Raw: make([]byte, 0, 64)}
+			_, _ = m.ReadFrom(rd)
+			close(done)
+		}()
+		select {
+		case <-done:
+		case <-time.After(3 * time.Second):
+			o.fail("readfrom-does-not-return", fmt.Sprintf("x ReadFrom on a reader of type %T (no data, an error or nothing on every call) is not back after 3 s", rd))
+		}
+		o.count("readfrom-on-unhelpful-readers")
+	}
+}
+
+// iotest0 returns (0, io.ErrNoProgress) - a reader that makes no progress
+type iotest0 struct{}
+
+func (iotest0) Read(p []byte) (int, error) { return 0, io.ErrNoProgress }
 
 func serDecoded(m *stun.Message) []int {
 	obs := []int{int(m.Type.Method), int(m.Type.Class), int(m.Length)}
@@ -156,6 +192,30 @@ func execDecode(o *out, f [][]int) []int {
 			}
 		}
 		reusedDecodeMu.Unlock()
+		// the input is a prefix of the destination's own buffer (Decode(m.Raw[:n], m) after m held something longer):
+		// same verdict and content as a fresh Message, and Raw is exactly the input
+		{
+			am := &stun.Message{Raw: append(append(make([]byte, 0, len(src)+40), src...), bytes.Repeat([]byte{0x5A}, 24)...)}
+			for _, viaWrite := range []bool{false, true} {
+				am.Raw = am.Raw[:len(src)+24]
+				copy(am.Raw, src)
+				var e error
+				p, _ := guarded(func() {
+					if viaWrite {
+						_, e = am.Write(am.Raw[:len(src)])
+					} else {
+						e = stun.Decode(am.Raw[:len(src)], am)
+					}
+				})
+				r := []int{b2i(e != nil), b2i(p)}
+				if e == nil && !p {
+					r = append(r, serDecoded(am)...)
+				}
+				if fmt.Sprint(r) != fmt.Sprint(results[0]) || (e == nil && !p && len(am.Raw) != len(src)) {
+					o.fail("entry-points-disagree", fmt.Sprintf("101 %s %s %s variant=input-is-a-prefix-of-the-destination write=%v", fHex(data), fHex(extra), fNums(entry, prevlen), viaWrite))
+				}
+			}
+		}
 		// CloneTo from a source that WAS decoded and whose bytes were changed in place afterwards (its struct is
 		// stale): the clone is the decode of the source's bytes as they are now
 		if err == nil && !pan && len(data) >= 24 {
@@ -684,6 +744,15 @@ func runDecodeStreams(g *decodeGen, bound, nValid, nMut, nRand, nBig int) map[st
 			g.emit(append(append([]byte(nil), b[k:]...), r.tlv(0x8022, r.bytes(4), 4)...), "split-tail")
 		}
 	}
+	// thousands of well-formed attributes and then one that does not fit: the refusal costs no more than the input
+	for _, n := range []int{1000, 4000, 16000} {
+		body := make([]byte, 0, 4*n+8)
+		for k := 0; k < n; k++ {
+			body = append(body, 0x80, 0x22, 0, 0)
+		}
+		body = append(body, 0x80, 0x22, 0, 9, 1, 2)
+		g.emit(append(header(1, len(body), r.bytes(12)), body...), "big-then-truncated")
+	}
 	for i := 0; i < nBig; i++ {
 		var b []byte
 		switch i % 3 {
@@ -712,6 +781,7 @@ func runDecodeStreams(g *decodeGen, bound, nValid, nMut, nRand, nBig int) map[st
 }
 
 func runC01(o *out, thorough bool, r *rng, _ []string) map[string]interface{} {
+	readFromReturns(o)
 	g := &decodeGen{o: o, r: r, thorough: thorough}
 	idx := 0
 	var ms runtime.MemStats
